@@ -11,57 +11,57 @@ import (
 
 // T-LOCK: field -> lock class that must be held (frozen from reading every access; §4 C12).
 var tLock = map[string]string{
-	"loadbalancer.Backend.IsHealthy":                    "loadbalancer.Backend.Mutex",
-	"loadbalancer.Backend.UnhealthyUntil":               "loadbalancer.Backend.Mutex",
-	"loadbalancer.LoadBalancer.strategy":                "loadbalancer.LoadBalancer.mutex",
-	"loadbalancer.healthChecker.unhealthyBackends":      "loadbalancer.healthChecker.unhealthyBackendMu",
-	"loadbalancer.RoundRobinStrategy.backends":          "loadbalancer.RoundRobinStrategy.mutex",
-	"loadbalancer.LeastConnectionsStrategy.backends":    "loadbalancer.LeastConnectionsStrategy.mutex",
-	"loadbalancer.IPHashStrategy.backends":              "loadbalancer.IPHashStrategy.mutex",
-	"loadbalancer.IPHashConsistentStrategy.backends":    "loadbalancer.IPHashConsistentStrategy.mutex",
-	"loadbalancer.WeightedRoundRobinStrategy.backends":  "loadbalancer.WeightedRoundRobinStrategy.mutex",
-	"loadbalancer.weightedBackend.currentWeight":        "loadbalancer.WeightedRoundRobinStrategy.mutex",
-	"circuitbreaker.CircuitBreaker.state":               "circuitbreaker.CircuitBreaker.mutex",
-	"circuitbreaker.CircuitBreaker.failureCount":        "circuitbreaker.CircuitBreaker.mutex",
-	"circuitbreaker.CircuitBreaker.successCount":        "circuitbreaker.CircuitBreaker.mutex",
-	"circuitbreaker.CircuitBreaker.requestCount":        "circuitbreaker.CircuitBreaker.mutex",
-	"circuitbreaker.CircuitBreaker.lastFailureTime":     "circuitbreaker.CircuitBreaker.mutex",
-	"circuitbreaker.CircuitBreaker.lastSuccessTime":     "circuitbreaker.CircuitBreaker.mutex",
-	"circuitbreaker.CircuitBreaker.nextAttempt":         "circuitbreaker.CircuitBreaker.mutex",
-	"ratelimiter.bucket.tokens":                         "ratelimiter.bucket.mutex",
-	"ratelimiter.bucket.lastRefill":                     "ratelimiter.bucket.mutex",
-	"metrics.Metrics.BackendMetrics":                    "metrics.Metrics.mutex",
-	"metrics.Metrics.CircuitBreakerMetrics":             "metrics.Metrics.mutex",
-	"metrics.Metrics.Uptime":                            "metrics.Metrics.mutex",
-	"metrics.BackendMetrics.Name":                       "metrics.Metrics.mutex",
-	"metrics.BackendMetrics.TotalRequests":              "metrics.Metrics.mutex",
-	"metrics.BackendMetrics.SuccessfulRequests":         "metrics.Metrics.mutex",
-	"metrics.BackendMetrics.FailedRequests":             "metrics.Metrics.mutex",
-	"metrics.BackendMetrics.ActiveConnections":          "metrics.Metrics.mutex",
-	"metrics.BackendMetrics.AverageResponseTime":        "metrics.Metrics.mutex",
-	"metrics.BackendMetrics.alpha":                      "metrics.Metrics.mutex",
-	"metrics.BackendMetrics.IsHealthy":                  "metrics.Metrics.mutex",
-	"metrics.BackendMetrics.LastHealthCheck":            "metrics.Metrics.mutex",
-	"metrics.CircuitBreakerMetrics.Name":                "metrics.Metrics.mutex",
-	"metrics.CircuitBreakerMetrics.State":               "metrics.Metrics.mutex",
-	"metrics.CircuitBreakerMetrics.FailureCount":        "metrics.Metrics.mutex",
-	"metrics.CircuitBreakerMetrics.SuccessCount":        "metrics.Metrics.mutex",
-	"metrics.CircuitBreakerMetrics.RequestCount":        "metrics.Metrics.mutex",
-	"metrics.CircuitBreakerMetrics.LastStateChange":     "metrics.Metrics.mutex",
-	"loadbalancer.WebSocketPool.pools":                  "loadbalancer.WebSocketPool.mu",
-	"loadbalancer.connPool.idle":                        "loadbalancer.connPool.mu",
-	"loadbalancer.connPool.active":                      "loadbalancer.connPool.mu",
+	"loadbalancer.Backend.IsHealthy":                   "loadbalancer.Backend.Mutex",
+	"loadbalancer.Backend.UnhealthyUntil":              "loadbalancer.Backend.Mutex",
+	"loadbalancer.LoadBalancer.strategy":               "loadbalancer.LoadBalancer.mutex",
+	"loadbalancer.healthChecker.unhealthyBackends":     "loadbalancer.healthChecker.unhealthyBackendMu",
+	"loadbalancer.RoundRobinStrategy.backends":         "loadbalancer.RoundRobinStrategy.mutex",
+	"loadbalancer.LeastConnectionsStrategy.backends":   "loadbalancer.LeastConnectionsStrategy.mutex",
+	"loadbalancer.IPHashStrategy.backends":             "loadbalancer.IPHashStrategy.mutex",
+	"loadbalancer.IPHashConsistentStrategy.backends":   "loadbalancer.IPHashConsistentStrategy.mutex",
+	"loadbalancer.WeightedRoundRobinStrategy.backends": "loadbalancer.WeightedRoundRobinStrategy.mutex",
+	"loadbalancer.weightedBackend.currentWeight":       "loadbalancer.WeightedRoundRobinStrategy.mutex",
+	"circuitbreaker.CircuitBreaker.state":              "circuitbreaker.CircuitBreaker.mutex",
+	"circuitbreaker.CircuitBreaker.failureCount":       "circuitbreaker.CircuitBreaker.mutex",
+	"circuitbreaker.CircuitBreaker.successCount":       "circuitbreaker.CircuitBreaker.mutex",
+	"circuitbreaker.CircuitBreaker.requestCount":       "circuitbreaker.CircuitBreaker.mutex",
+	"circuitbreaker.CircuitBreaker.lastFailureTime":    "circuitbreaker.CircuitBreaker.mutex",
+	"circuitbreaker.CircuitBreaker.lastSuccessTime":    "circuitbreaker.CircuitBreaker.mutex",
+	"circuitbreaker.CircuitBreaker.nextAttempt":        "circuitbreaker.CircuitBreaker.mutex",
+	"ratelimiter.bucket.tokens":                        "ratelimiter.bucket.mutex",
+	"ratelimiter.bucket.lastRefill":                    "ratelimiter.bucket.mutex",
+	"metrics.Metrics.BackendMetrics":                   "metrics.Metrics.mutex",
+	"metrics.Metrics.CircuitBreakerMetrics":            "metrics.Metrics.mutex",
+	"metrics.Metrics.Uptime":                           "metrics.Metrics.mutex",
+	"metrics.BackendMetrics.Name":                      "metrics.Metrics.mutex",
+	"metrics.BackendMetrics.TotalRequests":             "metrics.Metrics.mutex",
+	"metrics.BackendMetrics.SuccessfulRequests":        "metrics.Metrics.mutex",
+	"metrics.BackendMetrics.FailedRequests":            "metrics.Metrics.mutex",
+	"metrics.BackendMetrics.ActiveConnections":         "metrics.Metrics.mutex",
+	"metrics.BackendMetrics.AverageResponseTime":       "metrics.Metrics.mutex",
+	"metrics.BackendMetrics.alpha":                     "metrics.Metrics.mutex",
+	"metrics.BackendMetrics.IsHealthy":                 "metrics.Metrics.mutex",
+	"metrics.BackendMetrics.LastHealthCheck":           "metrics.Metrics.mutex",
+	"metrics.CircuitBreakerMetrics.Name":               "metrics.Metrics.mutex",
+	"metrics.CircuitBreakerMetrics.State":              "metrics.Metrics.mutex",
+	"metrics.CircuitBreakerMetrics.FailureCount":       "metrics.Metrics.mutex",
+	"metrics.CircuitBreakerMetrics.SuccessCount":       "metrics.Metrics.mutex",
+	"metrics.CircuitBreakerMetrics.RequestCount":       "metrics.Metrics.mutex",
+	"metrics.CircuitBreakerMetrics.LastStateChange":    "metrics.Metrics.mutex",
+	"loadbalancer.WebSocketPool.pools":                 "loadbalancer.WebSocketPool.mu",
+	"loadbalancer.connPool.idle":                       "loadbalancer.connPool.mu",
+	"loadbalancer.connPool.active":                     "loadbalancer.connPool.mu",
 }
 
 // T-ATOMIC: fields that may only be touched through sync/atomic.
 var tAtomic = map[string]bool{
-	"loadbalancer.Backend.ActiveConnections":   true,
-	"loadbalancer.RoundRobinStrategy.current":  true,
-	"metrics.Metrics.TotalRequests":            true,
-	"metrics.Metrics.SuccessfulRequests":       true,
-	"metrics.Metrics.FailedRequests":           true,
-	"metrics.Metrics.RateLimitedRequests":      true,
-	"metrics.Metrics.avgResponseTimeBits":      true,
+	"loadbalancer.Backend.ActiveConnections":  true,
+	"loadbalancer.RoundRobinStrategy.current": true,
+	"metrics.Metrics.TotalRequests":           true,
+	"metrics.Metrics.SuccessfulRequests":      true,
+	"metrics.Metrics.FailedRequests":          true,
+	"metrics.Metrics.RateLimitedRequests":     true,
+	"metrics.Metrics.avgResponseTimeBits":     true,
 }
 
 // T-IMMUT: fields written only before the object is published.
@@ -69,18 +69,18 @@ var tImmut = map[string]bool{
 	"loadbalancer.Backend.Name": true, "loadbalancer.Backend.URL": true, "loadbalancer.Backend.ReverseProxy": true, "loadbalancer.Backend.Weight": true,
 	"circuitbreaker.CircuitBreaker.name": true, "circuitbreaker.CircuitBreaker.maxRequests": true, "circuitbreaker.CircuitBreaker.interval": true,
 	"circuitbreaker.CircuitBreaker.timeout": true, "circuitbreaker.CircuitBreaker.failureThreshold": true, "circuitbreaker.CircuitBreaker.successThreshold": true,
-	"circuitbreaker.CircuitBreaker.onStateChange": true,
+	"circuitbreaker.CircuitBreaker.onStateChange":  true,
 	"ratelimiter.TokenBucketRateLimiter.maxTokens": true, "ratelimiter.TokenBucketRateLimiter.refillRate": true, "ratelimiter.TokenBucketRateLimiter.cleanupTick": true,
 	"loadbalancer.healthChecker.activeEnabled": true, "loadbalancer.healthChecker.activeInterval": true, "loadbalancer.healthChecker.activeTimeout": true,
 	"loadbalancer.healthChecker.activePath": true, "loadbalancer.healthChecker.passiveEnabled": true, "loadbalancer.healthChecker.passiveThreshold": true,
 	"loadbalancer.healthChecker.passiveTimeout": true,
-	"loadbalancer.WebSocketPool.maxIdle": true, "loadbalancer.WebSocketPool.maxActive": true, "loadbalancer.WebSocketPool.idleTimeout": true,
+	"loadbalancer.WebSocketPool.maxIdle":        true, "loadbalancer.WebSocketPool.maxActive": true, "loadbalancer.WebSocketPool.idleTimeout": true,
 	"loadbalancer.connPool.backend": true, "loadbalancer.connPool.idleTimeout": true,
 	"loadbalancer.LoadBalancer.config": true, "loadbalancer.LoadBalancer.healthChecks": true, "loadbalancer.LoadBalancer.rateLimiter": true,
 	"loadbalancer.LoadBalancer.circuitBreaker": true, "loadbalancer.LoadBalancer.metricsCollector": true, "loadbalancer.LoadBalancer.ctx": true,
 	"loadbalancer.LoadBalancer.cancel": true, "loadbalancer.LoadBalancer.wsPool": true,
 	"loadbalancer.weightedBackend.backend": true,
-	"metrics.MetricsCollector.metrics": true, "metrics.Metrics.StartTime": true, "metrics.Metrics.alpha": true,
+	"metrics.MetricsCollector.metrics":     true, "metrics.Metrics.StartTime": true, "metrics.Metrics.alpha": true,
 	"adminapi.IPFilter.allowList": true, "adminapi.IPFilter.denyList": true,
 }
 
